@@ -279,6 +279,9 @@ def run_case(case, rec):
     except InfeasibleRegion:
         rec.refuse('infeasible'); return
     except Exception as e:
+        # the temperature solve left the range of the property models (the quantifier takes only heat inputs for which the outlet temperature stays inside it)
+        if isinstance(e, (RuntimeError, ValueError, FloatingPointError, ZeroDivisionError, OverflowError)) and any(w in str(e) for w in ('extrapolate', 'Negative temperature', 'temperature', 'root could not be solved', 'divide', 'overflow', 'invalid value')):
+            rec.refuse('outlet temperature outside the property models (the T solve raised)'); return
         rec.exception('adiabatic', e, what=f'adiabatic_reaction raised {type(e).__name__}: {str(e)[:200]}'); return
     T1 = s.T
     if not (200 < T1 < 2500):
